@@ -7,7 +7,7 @@ from lib.common import Report, run_jobs, generate
 PROP = "C24"
 META = {
     "level": "model_checking",
-    "text": "spec/TermGraph.tla defines term graphs (a store of N nodes: variable, variable chain, atoms a/b, f/1, g/2, list cell, "
+    "text": "spec/TermGraph.tla defines term graphs (a store of N nodes: variable, variable chain, atoms a/b, f/1, g/2, h/3 (as h(X,a,a)), list cell, "
             "partial-string segment, with arbitrary edges, so cycles through structures, lists, strings and chains occur) and the "
             "meaning of ==, compare/3, =, acyclic_term/1, ground/1, term_variables/2 and copy_term/2 on the rational trees they "
             "denote (bisimilarity as greatest fixpoint, union-find unification, first difference in preorder for the standard order, "
@@ -128,6 +128,8 @@ def equations(g, order):
             eqs.append("X%d = g(X%d,X%d)" % (i, x, y))
         elif k == "l":
             eqs.append("X%d = '.'(X%d,X%d)" % (i, x, y))
+        elif k == "h":
+            eqs.append("X%d = h(X%d,a,a)" % (i, x))
         elif k == "s":
             eqs.append('partial_string("ab", X%d, X%d)' % (i, x))
         else:
@@ -291,6 +293,8 @@ def orders_for(v, tier):
     if n == 1:
         return [base]
     if tier == "quick":
+        if any(nd["k"] == "h" for nd in v["g"]):
+            return [base, base[::-1]]      # whether an argument cell is entered through the compound or through the variable in it depends on the order
         return [base if v["code"] % 2 == 0 else base[::-1]]
     if n <= 3:
         return [base]
